@@ -12,6 +12,7 @@
 #endif
 #include <dirent.h>
 #include <pthread.h>
+#include <sched.h>
 #include <sys/syscall.h>
 #include <unistd.h>
 #include "hkm.h"
@@ -31,6 +32,10 @@ static _Atomic int g_tids[MAXTID];
 static _Atomic int g_ntids;
 static _Atomic long g_user_threads, g_index_checks;
 static int g_expect_workers;
+/* binding cycles: expected CPU of each worker rank (docs/bind.txt), -1 = not checked */
+static int g_bind_check, g_expect_cpu[64];
+static _Atomic long g_bind_checks;
+static cpu_set_t g_s0;
 
 static void note_tid(void) {
   int tid = (int)syscall(SYS_gettid), i, n = atomic_load(&g_ntids);
@@ -54,6 +59,15 @@ static void * worker_probe(void * a) {
     HK_CHECK(myth_get_num_workers() == g_expect_workers, "init:wrong-worker-count", "myth_get_num_workers() = %d inside a thread, expected %d", myth_get_num_workers(), g_expect_workers);
     note_tid();
     atomic_fetch_add(&g_index_checks, 1);
+    if (g_bind_check && w >= 0 && w < 64) {
+      cpu_set_t cs; CPU_ZERO(&cs);
+      sched_getaffinity(0, sizeof(cs), &cs);
+      int want = g_expect_cpu[w];
+      HK_CHECK(CPU_COUNT(&cs) == 1 && CPU_ISSET(want, &cs), "init:worker-bound-to-wrong-cpu",
+               "worker %d of %d runs with %d allowed CPUs (first %d); MYTH_CPU_LIST=%s and the process mask require exactly CPU %d",
+               w, g_expect_workers, CPU_COUNT(&cs), sched_getcpu(), getenv("MYTH_CPU_LIST") ? getenv("MYTH_CPU_LIST") : "(unset)", want);
+      atomic_fetch_add(&g_bind_checks, 1);
+    }
     if (k & 1) myth_yield_ex(myth_yield_option_steal_first); else hk_work(2000);
   }
   atomic_fetch_add(&g_user_threads, 1);
@@ -88,13 +102,57 @@ int main(int argc, char ** argv) {
   hk_rng_t r; hk_rng_seed(&r, seed, 100);
   myth_verif_watchdog_enable(0);
   int base = count_tasks();
-  long total_workers = 0, fini_migrated0 = 0;
+  int bind = (int)hk_arg("bind", 0);
+  sched_getaffinity(0, sizeof(g_s0), &g_s0);
+  long total_workers = 0, fini_migrated0 = 0, bound_cycles = 0;
   int c;
   for (c = 0; c < cycles; c++) {
     int n = 1 + (int)hk_below(&r, (uint64_t)maxw);
     int how = !strcmp(via, "attr") ? 0 : !strcmp(via, "ex") ? 1 : !strcmp(via, "env") ? 2 : (int)hk_below(&r, 3);
     g_expect_workers = n;
     atomic_store(&g_ntids, 0);
+    g_bind_check = 0;
+    if (bind) {
+      /* a different CPU list every cycle; the main OS thread stays bound after a bound cycle, so give
+         it the process's original mask back first (docs/bind.txt: S = what sched_getaffinity returns) */
+      sched_setaffinity(0, sizeof(g_s0), &g_s0);
+      int allowed[256], na = 0, cpu;
+      for (cpu = 0; cpu < 256 && cpu < CPU_SETSIZE; cpu++) if (CPU_ISSET(cpu, &g_s0)) allowed[na++] = cpu;
+      int eff[64], ne = 0;
+      char list[512]; list[0] = 0;
+      if (hk_below(&r, 5) == 0) {
+        unsetenv("MYTH_CPU_LIST");                      /* S in ascending order */
+        for (cpu = 0; cpu < na && ne < 64; cpu++) eff[ne++] = allowed[cpu];
+      } else {
+        int items = 1 + (int)hk_below(&r, 5), it;
+        for (it = 0; it < items; it++) {
+          char piece[64];
+          int a = allowed[hk_below(&r, (uint64_t)na)];
+          unsigned form = (unsigned)hk_below(&r, 4);
+          if (form < 2) { snprintf(piece, sizeof(piece), "%d", a); if (ne < 64) eff[ne++] = a; }
+          else if (form == 2) {                          /* a-b = a .. b-1 */
+            int b = a + 1 + (int)hk_below(&r, 4), x;
+            snprintf(piece, sizeof(piece), "%d-%d", a, b);
+            for (x = a; x < b; x++) if (x < CPU_SETSIZE && CPU_ISSET(x, &g_s0) && ne < 64) eff[ne++] = x;
+          } else {                                       /* a-b:c = a, a+c, ... < b */
+            int st = 1 + (int)hk_below(&r, 3), b = a + 1 + (int)hk_below(&r, 8), x;
+            snprintf(piece, sizeof(piece), "%d-%d:%d", a, b, st);
+            for (x = a; x < b; x += st) if (x < CPU_SETSIZE && CPU_ISSET(x, &g_s0) && ne < 64) eff[ne++] = x;
+          }
+          if (it) strncat(list, ",", sizeof(list) - strlen(list) - 1);
+          strncat(list, piece, sizeof(list) - strlen(list) - 1);
+        }
+        setenv("MYTH_CPU_LIST", list, 1);
+      }
+      setenv("MYTH_BIND_WORKERS", "1", 1);
+      myth_globalattr_set_bind_workers(0, 1);
+      if (ne > 0 && n <= 64) {
+        int w;
+        for (w = 0; w < n; w++) g_expect_cpu[w] = eff[w % ne];
+        g_bind_check = 1;
+        bound_cycles++;
+      }
+    }
     int before = count_tasks();
     if (how == 2) {
       char buf[32]; snprintf(buf, sizeof(buf), "%d", n);
@@ -166,6 +224,8 @@ int main(int argc, char ** argv) {
   }
   HK_CHECK(count_tasks() == base, "fini:os-threads-left", "%d OS threads at the end, %d at the start", count_tasks(), base);
   hk_report("cycles", cycles);
+  hk_report("cycles_with_binding_checked", bound_cycles);
+  hk_report("worker_affinity_checks", atomic_load(&g_bind_checks));
   hk_report("workers_total", total_workers);
   hk_report("user_threads", atomic_load(&g_user_threads));
   hk_report("worker_index_checks", atomic_load(&g_index_checks));
